@@ -27,6 +27,22 @@
 namespace celma::container {
 
 
+/// Returns the new size of the vector when it has to grow in order to contain
+/// the position \a pos: one and a half times the minimum size, computed
+/// without floating point arithmetic (the conversion of a too big double value
+/// back to size_t is undefined).
+/// @param[in]  data  The vector to grow.
+/// @param[in]  pos   The position that should be accessible afterwards.
+/// @return  The size to resize the vector to.
+/// @throws  std::length_error if the position is too big for the vector.
+static size_t grownSize( const std::vector< bool>& data, size_t pos)
+{
+   if (pos >= data.max_size() / 2)
+      throw std::length_error( "position too big for a dynamic bitset");
+   return (pos + 1) + (pos + 1) / 2;
+} // grownSize
+
+
 
 /// Constructor.
 ///
@@ -192,7 +208,7 @@ DynamicBitset& DynamicBitset::set( size_t pos, bool value)
 {
 
    if (pos >= mData.size())
-      mData.resize( (pos + 1) * 1.5);
+      mData.resize( grownSize( mData, pos));
 
    mData[ pos] = value;
 
@@ -224,7 +240,7 @@ DynamicBitset& DynamicBitset::reset( size_t pos)
 {
 
    if (pos >= mData.size())
-      mData.resize( (pos + 1) * 1.5);
+      mData.resize( grownSize( mData, pos));
 
    mData[ pos] = false;
 
@@ -256,7 +272,7 @@ DynamicBitset& DynamicBitset::flip( size_t pos)
 {
 
    if (pos >= mData.size())
-      mData.resize( (pos + 1) * 1.5);
+      mData.resize( grownSize( mData, pos));
 
    mData[ pos] = !mData[ pos];
 
@@ -369,7 +385,7 @@ DynamicBitset::reference DynamicBitset::operator []( size_t pos) noexcept( true)
 {
 
    if (pos >= mData.size())
-      mData.resize( (pos + 1) * 1.5);
+      mData.resize( grownSize( mData, pos));
 
    return mData[ pos];
 } // DynamicBitset::operator []
